@@ -305,3 +305,48 @@ func decodeBody(s any) []byte {
 }
 
 func ZsonOf(v zed.Value) string { return zson.FormatValue(v) }
+
+// lakeQueryValues runs a lake query (default parallelism, or the given number of scan legs)
+// and returns the values.
+func lakeQueryValues(l *TLake, q string, parallelism int) (out []zed.Value, err error) {
+	e, _ := Protect(func() error {
+		ctx, cancel := context.WithTimeout(context.Background(), 60*time.Second)
+		defer cancel()
+		var p zbuf.Puller
+		if parallelism > 0 {
+			ast, _, err := compiler.Parse(q)
+			if err != nil {
+				return err
+			}
+			rctx := runtime.NewContext(ctx, zed.NewContext())
+			defer rctx.Cancel()
+			query, err := compiler.NewLakeCompiler(l.Root).NewLakeQuery(rctx, ast, parallelism, nil)
+			if err != nil {
+				return err
+			}
+			defer query.Pull(true)
+			p = query
+		} else {
+			query, err := l.LK.Query(ctx, nil, q)
+			if err != nil {
+				return err
+			}
+			defer query.Pull(true)
+			p = query
+		}
+		for {
+			b, err := p.Pull(false)
+			if err != nil {
+				return err
+			}
+			if b == nil {
+				return nil
+			}
+			for _, v := range b.Values() {
+				out = append(out, v.Copy())
+			}
+			b.Unref()
+		}
+	})
+	return out, e
+}
